@@ -55,5 +55,21 @@ CfgsFC == {Cfg(FALSE)}
 BasesFC == {<<>>}
 ProbesFC == ProbesF
 MethodsFC == <<"GET", "POST", "OPTIONS">>
+\* sub-alphabet V (growth): the shorthand methods Get / Post / Delete / Put / Patch / Any of Router, Prefix and Resource are
+\* Handle with the one method they name (Any: the default list); the harness calls the shorthand, the specification expects Handle
+Verbs == {"get", "post", "delete", "put", "patch", "any"}
+VerbMs(v) == CASE v = "get" -> <<"GET">> [] v = "post" -> <<"POST">> [] v = "delete" -> <<"DELETE">> [] v = "put" -> <<"PUT">> [] v = "patch" -> <<"PATCH">> [] OTHER -> <<>>
+HVb(ch, isres, p, v, mw) == HF(ch, isres, p, VerbMs(v), mw) @@ [verb |-> v]
+HOpsV == {HVb(<<>>, FALSE, "/x", v, mw) : v \in Verbs, mw \in {<<>>, <<"m">>}}
+         \cup {HVb(Ch1, FALSE, p, v, <<"m">>) : v \in Verbs, p \in {"/x", ""}}
+         \cup {HVb(Ch3, TRUE, "", v, mw) : v \in Verbs, mw \in {<<>>, <<"n">>}}
+         \cup {HVb(Ch1, FALSE, "/x", v, <<>>) @@ [fid |-> "f1"] : v \in Verbs} \cup {HVb(Ch3, TRUE, "", v, <<>>) @@ [fid |-> "f3"] : v \in Verbs}
+ROpsV == {Rm("/x", <<>>), Rm("/x", <<"PATCH">>), RmF(Ch3, TRUE, "", <<"DELETE", "PUT">>)}
+COpsV == {}
+UOpsV == {Us(<<"u">>)}
+CfgsV == {Cfg(FALSE), Cfg(TRUE)}
+BasesV == {<<>>, <<MkF("f1", Ch1, FALSE), MkF("f3", Ch3, TRUE)>>}
+ProbesV == <<W("/x", <<>>), W("/api/x", <<>>), W("/api", <<>>), W("/api/r/{id}", [id |-> "7q"]), A("/nope"), A("*")>>
+MethodsV == <<"GET", "HEAD", "POST", "DELETE", "PUT", "PATCH", "OPTIONS", "CONNECT", "TRACE">>
 MirrorExtra == [base |-> FALSE, mirror |-> TRUE]
 =============================================================================
